@@ -19,7 +19,10 @@ pub struct ClsCase {
     pub atoms: String,
 }
 
-const ATOMS: &[&str] = &["/REJT/", "/RETN/", "/RJT/", "/RET/", "/COV/", "/COVER/", "/rejt/", "/retn/", "REJT", "RETN", "/REJTX/", "/RETNS/", "/XREJT/"];
+const ATOMS: &[&str] = &[
+    "/REJT/", "/RETN/", "/RJT/", "/RET/", "/COV/", "/COVER/", "/rejt/", "/retn/", "REJT", "RETN",
+    "/REJTX/", "/RETNS/", "/XREJT/",
+];
 
 impl ClsCase {
     pub fn text(&self) -> String {
@@ -46,13 +49,22 @@ impl ClsCase {
 pub fn body_with_72(mt: &str, f72: &[String], seq_b: &str) -> String {
     let base = minimal_body(mt);
     // drop any 72 of the minimal body, then insert ours at the documented position
-    let mut fields: Vec<(String, String)> = crate::refs::tokenize(&base).1.into_iter().map(|t| (t.tag, t.content)).filter(|(t, _)| t != "72").collect();
+    let mut fields: Vec<(String, String)> = crate::refs::tokenize(&base)
+        .1
+        .into_iter()
+        .map(|t| (t.tag, t.content))
+        .filter(|(t, _)| t != "72")
+        .collect();
     if !f72.is_empty() {
         let after: &[&str] = match mt {
             "103" => &["71A", "71F", "71G"],
             _ => &["58A", "58D"],
         };
-        let pos = fields.iter().rposition(|(t, _)| after.contains(&t.as_str())).map(|i| i + 1).unwrap_or(fields.len());
+        let pos = fields
+            .iter()
+            .rposition(|(t, _)| after.contains(&t.as_str()))
+            .map(|i| i + 1)
+            .unwrap_or(fields.len());
         fields.insert(pos, ("72".to_string(), f72.join("\n")));
     }
     if mt == "202" {
@@ -73,33 +85,77 @@ pub fn body_with_72(mt: &str, f72: &[String], seq_b: &str) -> String {
 }
 
 pub fn enumerate(mt: &str, thorough: bool) -> Vec<ClsCase> {
-    let mut f72s: Vec<(Vec<String>, String)> = vec![(vec![], "none".into()), (vec!["/ACC/INFORMATION".into()], "neutral".into())];
+    let mut f72s: Vec<(Vec<String>, String)> = vec![
+        (vec![], "none".into()),
+        (vec!["/ACC/INFORMATION".into()], "neutral".into()),
+    ];
     for a in ATOMS {
         f72s.push((vec![format!("{a}AC01")], format!("{a}@start")));
         f72s.push((vec![format!("INFO {a} X")], format!("{a}@mid")));
-        f72s.push((vec!["/ACC/INFORMATION".into(), format!("{a}AC01")], format!("{a}@line2")));
+        f72s.push((
+            vec!["/ACC/INFORMATION".into(), format!("{a}AC01")],
+            format!("{a}@line2"),
+        ));
     }
     for a in ["/REJT/", "/RETN/", "/RJT/", "/RET/"] {
         for b in ["/REJT/", "/RETN/", "/COV/", "/RET/"] {
             if a != b {
-                f72s.push((vec![format!("{a}ONE"), format!("{b}TWO")], format!("{a}+{b}")));
+                f72s.push((
+                    vec![format!("{a}ONE"), format!("{b}TWO")],
+                    format!("{a}+{b}"),
+                ));
             }
         }
     }
     if thorough {
         for a in ATOMS {
-            f72s.push((vec!["/ACC/A".into(), "//CONT".into(), "/INS/B".into(), format!("{a}Z")], format!("{a}@line4")));
+            f72s.push((
+                vec![
+                    "/ACC/A".into(),
+                    "//CONT".into(),
+                    "/INS/B".into(),
+                    format!("{a}Z"),
+                ],
+                format!("{a}@line4"),
+            ));
         }
     }
-    let t108s: Vec<Option<&str>> = vec![None, Some("PLAINREF"), Some("XREJTX"), Some("XRETNX"), Some("xrejtx"), Some("myretnref"), Some("REJT"), Some("RETN")];
-    let t119s: Vec<Option<&str>> = vec![None, Some("STP"), Some("REMIT"), Some("COV"), Some("REJT"), Some("RETN")];
-    let seqs: Vec<&str> = if mt == "202" { vec!["", "cover", "other"] } else { vec![""] };
+    let t108s: Vec<Option<&str>> = vec![
+        None,
+        Some("PLAINREF"),
+        Some("XREJTX"),
+        Some("XRETNX"),
+        Some("xrejtx"),
+        Some("myretnref"),
+        Some("REJT"),
+        Some("RETN"),
+    ];
+    let t119s: Vec<Option<&str>> = vec![
+        None,
+        Some("STP"),
+        Some("REMIT"),
+        Some("COV"),
+        Some("REJT"),
+        Some("RETN"),
+    ];
+    let seqs: Vec<&str> = if mt == "202" {
+        vec!["", "cover", "other"]
+    } else {
+        vec![""]
+    };
     let mut out = Vec::new();
     for (l, d) in &f72s {
         for a in &t108s {
             for b in &t119s {
                 for s in &seqs {
-                    out.push(ClsCase { mt: mt.to_string(), f72: l.clone(), t108: a.map(|x| x.to_string()), t119: b.map(|x| x.to_string()), seq_b: s.to_string(), atoms: d.clone() });
+                    out.push(ClsCase {
+                        mt: mt.to_string(),
+                        f72: l.clone(),
+                        t108: a.map(|x| x.to_string()),
+                        t119: b.map(|x| x.to_string()),
+                        seq_b: s.to_string(),
+                        atoms: d.clone(),
+                    });
                 }
             }
         }
@@ -119,8 +175,18 @@ pub struct Observed {
 pub fn observe(c: &ClsCase) -> Option<Observed> {
     let x = c.text();
     let m = (msg_ops(&c.mt).parse_full)(&x).ok()?;
-    let method = plugin_parse(&x).ok().and_then(|(_, meta)| meta.get("method").and_then(|v| v.as_str()).map(|s| s.to_string()));
-    Some(Observed { reject: m.reject, ret: m.ret, cover: m.cover, stp: m.stp, method })
+    let method = plugin_parse(&x).ok().and_then(|(_, meta)| {
+        meta.get("method")
+            .and_then(|v| v.as_str())
+            .map(|s| s.to_string())
+    });
+    Some(Observed {
+        reject: m.reject,
+        ret: m.ret,
+        cover: m.cover,
+        stp: m.stp,
+        method,
+    })
 }
 
 fn class108(v: &Option<String>) -> &'static str {
@@ -145,25 +211,54 @@ pub fn oracle(c: &ClsCase, obs: &mut Obs) -> Vec<Violation> {
     };
     let all72 = c.f72.join("\n");
     let has = |a: &str| all72.contains(a);
-    let carries_atom = c.atoms != "none" && c.atoms != "neutral" || class108(&c.t108) != "none" && class108(&c.t108) != "plain" || matches!(c.t119.as_deref(), Some("REJT") | Some("RETN") | Some("COV"));
+    let carries_atom = c.atoms != "none" && c.atoms != "neutral"
+        || class108(&c.t108) != "none" && class108(&c.t108) != "plain"
+        || matches!(c.t119.as_deref(), Some("REJT") | Some("RETN") | Some("COV"));
     if carries_atom {
         obs.nontrivial_str(&c.text());
     }
     obs.class(&format!("mt{}", c.mt));
     obs.sample(&format!("mt{}", c.mt), || json!({"text": c.text(), "reject": o.reject, "return": o.ret, "cover": o.cover, "method": o.method}));
     // (i) absolute verdict on unambiguous inputs only
-    let lookalike = ["/RJT/", "/RET/", "/rejt/", "/retn/", "/REJTX/", "/RETNS/", "/XREJT/"].iter().any(|a| has(a)) || (has("REJT") && !has("/REJT/")) || (has("RETN") && !has("/RETN/"));
+    let lookalike = [
+        "/RJT/", "/RET/", "/rejt/", "/retn/", "/REJTX/", "/RETNS/", "/XREJT/",
+    ]
+    .iter()
+    .any(|a| has(a))
+        || (has("REJT") && !has("/REJT/"))
+        || (has("RETN") && !has("/RETN/"));
     let c108 = class108(&c.t108);
-    let ambiguous = lookalike || c108 == "rejt-lower" || c108 == "retn-lower" || matches!(c.t119.as_deref(), Some("REJT") | Some("RETN"));
+    let ambiguous = lookalike
+        || c108 == "rejt-lower"
+        || c108 == "retn-lower"
+        || matches!(c.t119.as_deref(), Some("REJT") | Some("RETN"));
     if !ambiguous {
         let exp_rej = has("/REJT/") || c108 == "REJT";
         let exp_ret = has("/RETN/") || c108 == "RETN";
-        let place = format!("72:{}|108:{}", if has("/REJT/") && has("/RETN/") { "both" } else if has("/REJT/") { "/REJT/" } else if has("/RETN/") { "/RETN/" } else { "none" }, c108);
+        let place = format!(
+            "72:{}|108:{}",
+            if has("/REJT/") && has("/RETN/") {
+                "both"
+            } else if has("/REJT/") {
+                "/REJT/"
+            } else if has("/RETN/") {
+                "/RETN/"
+            } else {
+                "none"
+            },
+            c108
+        );
         if o.reject != exp_rej {
-            out.push(viol(format!("C17|MT{}|reject|expected-{}|{}", c.mt, exp_rej, place), format!("has_reject_codes()={} for {}", o.reject, c.text())));
+            out.push(viol(
+                format!("C17|MT{}|reject|expected-{}|{}", c.mt, exp_rej, place),
+                format!("has_reject_codes()={} for {}", o.reject, c.text()),
+            ));
         }
         if o.ret != exp_ret {
-            out.push(viol(format!("C17|MT{}|return|expected-{}|{}", c.mt, exp_ret, place), format!("has_return_codes()={} for {}", o.ret, c.text())));
+            out.push(viol(
+                format!("C17|MT{}|return|expected-{}|{}", c.mt, exp_ret, place),
+                format!("has_return_codes()={} for {}", o.ret, c.text()),
+            ));
         }
     } else {
         obs.excluded("absolute-verdict:ambiguous-code-word");
@@ -197,7 +292,13 @@ pub fn run(ctx: &Ctx) {
     let thorough = !ctx.quick();
     let types = ["103", "202", "205"];
     let to_json = |c: &ClsCase| serde_json::to_value(c).unwrap();
-    ctx.run_enumerated("classify", types.len(), &|sh| enumerate(types[sh], thorough), &oracle, &to_json);
+    ctx.run_enumerated(
+        "classify",
+        types.len(),
+        &|sh| enumerate(types[sh], thorough),
+        &oracle,
+        &to_json,
+    );
     // (ii) consistency: identical (72, 108, 119) must give identical (reject, return) in the three types
     let mut table: BTreeMap<String, Vec<(String, bool, bool)>> = BTreeMap::new();
     let mut sigs: BTreeMap<String, String> = BTreeMap::new();
@@ -207,8 +308,16 @@ pub fn run(ctx: &Ctx) {
                 continue;
             }
             if let Some(o) = observe(&c) {
-                let key = format!("{}|108:{}|119:{}", c.atoms, class108(&c.t108), c.t119.as_deref().unwrap_or("none"));
-                table.entry(key).or_default().push((t.to_string(), o.reject, o.ret));
+                let key = format!(
+                    "{}|108:{}|119:{}",
+                    c.atoms,
+                    class108(&c.t108),
+                    c.t119.as_deref().unwrap_or("none")
+                );
+                table
+                    .entry(key)
+                    .or_default()
+                    .push((t.to_string(), o.reject, o.ret));
             }
         }
     }
@@ -220,16 +329,26 @@ pub fn run(ctx: &Ctx) {
             // signature on the code-word configuration without the 119 dimension (119 never feeds the predicates)
             // root-cause level: the set of code-word atoms in field 72 (positions, 108 and 119 dropped)
             let atoms_part = key.split("|108:").next().unwrap_or(key);
-            let mut atoms: Vec<String> = atoms_part.split('+').map(|a| a.split('@').next().unwrap_or(a).to_string()).collect();
+            let mut atoms: Vec<String> = atoms_part
+                .split('+')
+                .map(|a| a.split('@').next().unwrap_or(a).to_string())
+                .collect();
             atoms.sort();
             atoms.dedup();
             let short: String = atoms.join("+");
-            sigs.entry(short.clone()).or_insert_with(|| format!("(type, reject, return) = {:?} for 72/108/119 = {}", v, key));
+            sigs.entry(short.clone()).or_insert_with(|| {
+                format!("(type, reject, return) = {:?} for 72/108/119 = {}", v, key)
+            });
         }
     }
     for (short, detail) in sigs {
         let v = viol(format!("C17|consistency|{}", short), detail.clone());
-        ctx.report(&mut obs, "consistency", v, &|| json!({"config": short, "detail": detail}));
+        ctx.report(
+            &mut obs,
+            "consistency",
+            v,
+            &|| json!({"config": short, "detail": detail}),
+        );
     }
     ctx.total.lock().unwrap().evals += obs.evals;
     let mut total = ctx.total.lock().unwrap();
@@ -250,18 +369,55 @@ pub fn run(ctx: &Ctx) {
                 return Vec::new();
             }
             vec![
-                ClsCase { mt: mt.to_string(), f72: vec![], t108: Some("XREJTX".into()), t119: None, seq_b: String::new(), atoms: "control".into() },
-                ClsCase { mt: mt.to_string(), f72: vec![], t108: None, t119: Some("COV".into()), seq_b: String::new(), atoms: "control".into() },
-                ClsCase { mt: mt.to_string(), f72: vec![], t108: None, t119: None, seq_b: String::new(), atoms: "control".into() },
+                ClsCase {
+                    mt: mt.to_string(),
+                    f72: vec![],
+                    t108: Some("XREJTX".into()),
+                    t119: None,
+                    seq_b: String::new(),
+                    atoms: "control".into(),
+                },
+                ClsCase {
+                    mt: mt.to_string(),
+                    f72: vec![],
+                    t108: None,
+                    t119: Some("COV".into()),
+                    seq_b: String::new(),
+                    atoms: "control".into(),
+                },
+                ClsCase {
+                    mt: mt.to_string(),
+                    f72: vec![],
+                    t108: None,
+                    t119: None,
+                    seq_b: String::new(),
+                    atoms: "control".into(),
+                },
             ]
         },
         &|c: &ClsCase, obs: &mut Obs| {
             let mut out = Vec::new();
             if let Some(o) = observe(c) {
                 obs.nontrivial_str(&c.text());
-                let implied = if o.reject { "reject" } else if o.ret { "return" } else if o.cover { "cover" } else { "normal" };
+                let implied = if o.reject {
+                    "reject"
+                } else if o.ret {
+                    "return"
+                } else if o.cover {
+                    "cover"
+                } else {
+                    "normal"
+                };
                 if o.method.as_deref() != Some(implied) {
-                    out.push(viol(format!("C17|MT{}|method|implied-{}-got-{}|control", c.mt, implied, o.method.clone().unwrap_or_default()), c.text()));
+                    out.push(viol(
+                        format!(
+                            "C17|MT{}|method|implied-{}-got-{}|control",
+                            c.mt,
+                            implied,
+                            o.method.clone().unwrap_or_default()
+                        ),
+                        c.text(),
+                    ));
                 }
             }
             out
